@@ -33,6 +33,11 @@ NonIncreasing(seq) == \A i \in 1 .. Len(seq) - 1 : seq[i] >= seq[i + 1]
 NonDecreasing(seq) == \A i \in 1 .. Len(seq) - 1 : seq[i] <= seq[i + 1]
 OrderedKeys(rule, keys) == IF IsLargest(rule) THEN NonIncreasing(keys) ELSE NonDecreasing(keys)
 
+\* 16 * ceil(log2 n) for n >= 1: an upper bound of q(n) computed in integers
+RECURSIVE Log2Up(_)
+Log2Up(n) == IF n <= 1 THEN 0 ELSE 1 + Log2Up((n + 1) \div 2)
+QLog2Up(n) == 16 * Log2Up(n)
+
 IsPrefixSeq(a, b) == Len(a) <= Len(b) /\ \A i \in 1 .. Len(a) : a[i] = b[i]
 MinI(a, b) == IF a < b THEN a ELSE b
 =============================================================================
